@@ -312,6 +312,62 @@ func doConcShape(repo, out string) error {
 			writerNoSelfSend = false
 		}
 	}
+	// managerReplyAwaited: join/leave/write wait for the manager's answer with a plain receive — no `select`, no timer —
+	// outside the closure they send (a caller that gives up leaves its queued operation behind: the manager would still
+	// apply it later). managerTableCreatedOnce: in sessionManager.run the session table is made once and never assigned
+	// again (an operation sees every session recorded before it).
+	replyAwaited := true
+	for _, name := range []string{"sessionManager.join", "sessionManager.leave", "sessionManager.write"} {
+		fd := meth[name]
+		if fd == nil {
+			replyAwaited = false
+			continue
+		}
+		var lits []*ast.FuncLit
+		ast.Inspect(fd.Body, func(n ast.Node) bool {
+			if ss, ok := n.(*ast.SendStmt); ok && strings.HasSuffix(exprString(ss.Chan), "operationFuncChan") {
+				if fl, ok := ss.Value.(*ast.FuncLit); ok {
+					lits = append(lits, fl)
+				}
+			}
+			return true
+		})
+		ast.Inspect(fd.Body, func(n ast.Node) bool {
+			for _, l := range lits {
+				if n == l {
+					return false
+				}
+			}
+			switch x := n.(type) {
+			case *ast.SelectStmt:
+				replyAwaited = false
+			case *ast.CallExpr:
+				if strings.HasPrefix(exprString(x.Fun), "time.") || strings.HasPrefix(exprString(x.Fun), "context.") {
+					replyAwaited = false
+				}
+			}
+			return true
+		})
+	}
+	tableOnce := false
+	if fd := meth["sessionManager.run"]; fd != nil {
+		defs, assigns := 0, 0
+		ast.Inspect(fd.Body, func(n ast.Node) bool {
+			if as, ok := n.(*ast.AssignStmt); ok {
+				for _, l := range as.Lhs {
+					if id, ok := l.(*ast.Ident); ok && id.Name == "record" {
+						if as.Tok == token.DEFINE {
+							defs++
+						} else {
+							assigns++
+						}
+					}
+				}
+			}
+			return true
+		})
+		tableOnce = defs == 1 && assigns == 0
+	}
 	var sb strings.Builder
 	sb.WriteString("/-! GENERATED by /verif/harness/cmd/extract (concshape) from package service of /repo — do not edit.\nShape facts of the concurrent code that the transition-system models assume (see the extractor's header). -/\nnamespace JT.Gen\n")
 	fmt.Fprintf(&sb, "def managerOpsInClosure : Bool := %v\n", inClosure)
@@ -323,6 +379,8 @@ func doConcShape(repo, out string) error {
 	fmt.Fprintf(&sb, "def stopDrainsAll : Bool := %v\n", drains)
 	fmt.Fprintf(&sb, "def managerStartedOnce : Bool := %v\n", managerOnce)
 	fmt.Fprintf(&sb, "def writerNoSelfSend : Bool := %v\n", writerNoSelfSend)
+	fmt.Fprintf(&sb, "def managerReplyAwaited : Bool := %v\n", replyAwaited)
+	fmt.Fprintf(&sb, "def managerTableCreatedOnce : Bool := %v\n", tableOnce)
 	sb.WriteString("end JT.Gen\n")
 	return writeIfChanged(filepath.Join(out, "ConcShape.lean"), sb.String())
 }
